@@ -97,7 +97,9 @@ func handle(p []string) (res string) {
 	case "unmarshal":
 		return opUnmarshal(p[1:])
 	case "autogen":
-		return opAutogen(p[1:])
+		return opAutogen(p[1:], false)
+	case "autogenj":
+		return opAutogen(p[1:], true)
 	case "race":
 		return opRace(p[1:])
 	case "untrusted":
@@ -113,9 +115,11 @@ func handle(p []string) (res string) {
 	case "remarshal":
 		return opRemarshal(p[1:])
 	case "clone":
-		return opClone(p[1:], false)
+		return opClone(p[1:], false, false)
 	case "clonev":
-		return opClone(p[1:], true)
+		return opClone(p[1:], true, false)
+	case "clonep":
+		return opClone(p[1:], false, true)
 	case "pump":
 		return opPump(p[1:])
 	case "wfault":
